@@ -1212,7 +1212,7 @@ def r02_6(ctx):
                 ctx.ok(1, (name, cut))
 
 
-@rule("R03.9", ["C03", "C10", "C11", "C04", "C02"], "T-FUN", floor=512)
+@rule("R03.9", ["C03", "C10", "C11", "C04", "C02", "C05"], "T-FUN", floor=512)
 def r03_9(ctx):
     """Every reset / error code is accepted: for each of the 256 code values, defined in the reset-code enum or not,
     a well-formed RSTACK and a well-formed ERROR frame parse into a frame carrying exactly that code (an NCP may
